@@ -14,7 +14,7 @@ import (
 
 func init() {
 	register("C19", propMeta{
-		Explanation: "Decides codec agreement and value placement, not equality with a model: (R1) the node codec is symmetric and complete: the private structs in Node.MarshalJSON and Node.UnmarshalJSON declare the same fields, types and JSON tags, these cover every exported field of Node, every decoded field is copied back into the node, Item's JSON tags are unique and its only untagged field is the unexported fetch marker; (R2) decode failures on the read path are returned (shared with C10.R5); (R3) value placement follows the store options: commitTrackedItemsValues is a no-op exactly when values live in the node segment or are actively persisted; manage detaches an item's value (Value = nil, ValueNeedsFetch = true) only after that value was marshalled successfully into the blob it returns; (R4) the in-memory value of the current item is dropped (unfetchCurrentValue) only when it is known to be a copy fetched from the value store - the valueWasFetched marker, set only by the fetching read paths - because an added-then-updated value may exist inline only; (R5) a value read falls back to the blob store when the value cache misses or fails, returns the blob store's error, and assigns item.Value only after a successful decode. (R6) ValueNeedsFetch is cleared only behind a `Value != nil` test of the same item, after an assignment of its Value, or while removing the item.",
+		Explanation:  "Decides codec agreement and value placement, not equality with a model: (R1) the node codec is symmetric and complete: the private structs in Node.MarshalJSON and Node.UnmarshalJSON declare the same fields, types and JSON tags, these cover every exported field of Node, every decoded field is copied back into the node, Item's JSON tags are unique and its only untagged field is the unexported fetch marker; (R2) decode failures on the read path are returned (shared with C10.R5); (R3) value placement follows the store options: commitTrackedItemsValues is a no-op exactly when values live in the node segment or are actively persisted; manage detaches an item's value (Value = nil, ValueNeedsFetch = true) only after that value was marshalled successfully into the blob it returns; (R4) the in-memory value of the current item is dropped (unfetchCurrentValue) only when it is known to be a copy fetched from the value store - the valueWasFetched marker, set only by the fetching read paths - because an added-then-updated value may exist inline only; (R5) a value read falls back to the blob store when the value cache misses or fails, returns the blob store's error, and assigns item.Value only after a successful decode. (R6) ValueNeedsFetch is cleared only behind a `Value != nil` test of the same item, after an assignment of its Value, or while removing the item.",
 		DoesNotCover: "Equality of contents with an in-memory model over operation sequences, restart behaviour and slot-length dependent restructuring are not decided.",
 	}, runC19)
 }
